@@ -44,10 +44,6 @@ class DeviceModel(Listener):
         self.port = 9957 if self.kind in ("heater", "plug") else 10000
         self.state = dict(DEFAULT_STATE)
         self.state.update(cfg.get("state", {}))
-        self.schedules: Dict[int, bytes] = {}
-        for r in cfg.get("schedules", []):
-            rec = bytes.fromhex(r)
-            self.schedules_raw = None
         self.sched_records: List[bytes] = [bytes.fromhex(r) for r in cfg.get("schedules", [])]
         self.salt = salt
         self.logins = 0
